@@ -1054,3 +1054,176 @@ Proof.
   destruct ex, ma, dm, pa, ss, se, ho; cbn [option_map opt_attr flag_attr app map concat];
     rewrite ?same_site_text_str, ?app_nil_r; app_norm; reflexivity.
 Qed.
+
+(* ================= 9. packaged statements for props/ ================= *)
+Lemma In_in_table (c : N) (ph : bytes) (t : list (N * bytes)) : In (c, ph) t -> in_table c ph t = true.
+Proof.
+  intros H. unfold in_table. apply existsb_exists. exists (c, ph). split; [exact H|].
+  cbn [fst snd]. rewrite N.eqb_refl, beq_refl. reflexivity.
+Qed.
+
+Lemma status_tables_lemma :
+  (forall s, s < status_count -> status_of_code (status_code s) = Some s) /\
+  (forall s1 s2, s1 < status_count -> s2 < status_count -> status_code s1 = status_code s2 -> s1 = s2) /\
+  (forall c s, status_of_code c = Some s -> s < status_count /\ status_code s = c) /\
+  (forall s, s < status_count -> 100 <= status_code s /\ status_code s <= 599) /\
+  (forall s, s < status_count -> In (status_code s, status_phrase s) Txt.rfc2616_phrases) /\
+  (forall s, s < status_count ->
+     (In (status_code s, status_phrase s) Txt.rfc7231_phrases /\ ~ In (status_code s) [413; 414; 416]) \/
+     (In (status_code s) [413; 414; 416] /\ ~ In (status_code s, status_phrase s) Txt.rfc7231_phrases)) /\
+  (forall c ph, In (c, ph) Txt.rfc2616_phrases -> (exists s, s < status_count /\ status_code s = c) \/ c = 402) /\
+  (forall c ph, In (c, ph) Txt.rfc7231_phrases -> (exists s, s < status_count /\ status_code s = c) \/ c = 402 \/ c = 426).
+Proof.
+  assert (Hmod : forall c, In c modelled_codes -> exists s, s < status_count /\ status_code s = c).
+  { intros c Hin. unfold modelled_codes in Hin. apply in_map_iff in Hin. destruct Hin as (s & E & Hs).
+    exists s. split; [|exact E]. unfold status_idx in Hs. apply in_map_iff in Hs. destruct Hs as (k & <- & Hk).
+    apply in_seq in Hk. lia. }
+  destruct status_coverage as (C1 & C2 & _ & _).
+  split; [exact status_of_code_code|]. split; [exact status_code_inj|]. split; [exact status_of_code_sound|].
+  split; [exact status_code_range|]. split; [exact status_phrase_rfc2616|]. split; [exact status_phrase_rfc7231|].
+  split.
+  - intros c ph Hin. destruct (C1 c ph Hin) as [H|H]; [left; apply Hmod, H|right; exact H].
+  - intros c ph Hin. destruct (C2 c ph Hin) as [H|H]; [left; apply Hmod, H|right; exact H].
+Qed.
+
+(* the three phrases that are not the RFC 7231 / IANA ones, as concrete witnesses *)
+Lemma status_phrases_rfc7231_refuted :
+  exists s, s < status_count /\ status_code s = 413 /\ ~ In (status_code s, status_phrase s) Txt.rfc7231_phrases.
+Proof.
+  exists 28. split; [reflexivity|]. split; [reflexivity|]. intros Hin. apply In_in_table in Hin.
+  vm_compute in Hin. discriminate.
+Qed.
+
+Lemma hsort_stable_lemma (l : headers) :
+  Permutation (hsort l) l /\
+  (forall n, filter (fun h => hname_eqb n (fst h)) (hsort l) = filter (fun h => hname_eqb n (fst h)) l) /\
+  (forall n, hget_all n (hsort l) = hget_all n l) /\ (forall n, hget n (hsort l) = hget n l) /\
+  hsorted (hsort l).
+Proof.
+  split; [apply hsort_perm|]. split; [intros n; apply (hsort_filter n)|]. split; [intros n; apply hget_all_hsort|].
+  split; [intros n; apply hget_hsort|apply hsort_sorted].
+Qed.
+
+Lemma number_roundtrip_lemma :
+  (forall c, c <= 65535 -> parse_u16 (dec_render c) = Some c) /\
+  (forall n, n <= usize_max -> parse_usize (dec_render n) = Some n) /\
+  (forall up n, n <= usize_max -> parse_usize_hex (trim_end (hex_render up n ++ CRLF)) = Some n) /\
+  (forall s n, hex_str s n -> n <= usize_max -> parse_usize_hex (trim_end (s ++ CRLF)) = Some n).
+Proof.
+  split; [exact parse_u16_render|]. split; [exact parse_usize_render|]. split; [exact parse_usize_hex_render|].
+  exact parse_usize_hex_line.
+Qed.
+
+(* FINDING (confirmed on the real code through the harness): a header value that begins with a non-ASCII Unicode
+   whitespace character (here U+00A0, bytes C2 A0 - legal obs-text in field-content, no leading SP/HTAB) does not survive
+   the round trip: Response::from_stream calls str::trim_start, which strips every char::is_whitespace character.
+   This is why rt_value / wf_value say ws_prefix_len v = 0 and not just "no leading SP / HTAB". *)
+Definition r_unicode_ws : response :=
+  {| s_version := Txt.s_http11; s_status := 2; s_headers := [(HCustom [120; 45; 97], [194; 160; 120])]; s_body := [] |}.
+Lemma roundtrip_unicode_ws_refuted :
+  exists r r' leftover,
+    (s_version r = Txt.s_http11 /\ s_status r < status_count /\
+     Forall (fun h => canonical_name (fst h) /\ token (hname_str (fst h)) /\ field_text (snd h) /\
+                      utf8_valid (snd h) = true /\
+                      (forall b, hd_error (snd h) = Some b -> b <> 32 /\ b <> 9) /\
+                      ws_suffix_len (rev (snd h)) = 0%nat) (s_headers r)) /\
+    framing_ok r /\
+    parse_response_flat (serialize_response r) = Ok (r', leftover) /\
+    ~ same_headers (s_headers r') (s_headers r).
+Proof.
+  exists r_unicode_ws. eexists. eexists. split; [|split; [|split; [vm_compute; reflexivity|]]].
+  - split; [reflexivity|]. split; [reflexivity|]. constructor; [|constructor]. cbn [fst snd].
+    split; [reflexivity|]. split.
+    { split; [discriminate|]. repeat constructor; unfold tchar, digit; cbn [In]; lia. }
+    split; [repeat constructor; unfold field_byte; lia|]. split; [reflexivity|].
+    split; [|reflexivity]. intros b [= <-]. lia.
+  - split; [vm_compute; discriminate|]. right. split; reflexivity.
+  - intros H. specialize (H (HCustom [120; 45; 97])). vm_compute in H. discriminate.
+Qed.
+
+(* ================= 10. executable checkers for the well-formedness predicates (used for the Examples) ================= *)
+Definition tcharb (b : N) : bool :=
+  is_digit b || ((65 <=? b) && (b <=? 90)) || ((97 <=? b) && (b <=? 122)) ||
+  memN b [33; 35; 36; 37; 38; 39; 42; 43; 45; 46; 94; 95; 96; 124; 126].
+Definition tokenb (s : bytes) : bool := match s with [] => false | _ => forallb tcharb s end.
+Definition field_byteb (b : N) : bool := (b =? 9) || ((32 <=? b) && (b <=? 126)) || ((128 <=? b) && (b <=? 255)).
+Definition owsb (o : bytes) : bool := forallb (fun b => (b =? 32) || (b =? 9)) o.
+Definition noLFb (s : bytes) : bool := negb (memN LF s).
+Definition rt_valueb (v : bytes) : bool := noLFb v && utf8_valid v && Nat.eqb (ws_prefix_len v) 0.
+Definition wf_valueb (v : bytes) : bool :=
+  forallb field_byteb v && utf8_valid v && Nat.eqb (ws_prefix_len v) 0 && Nat.eqb (ws_suffix_len (rev v)) 0.
+Definition canonicalb (n : hname) : bool := hname_eqb (hname_of (hname_str n)) n.
+Definition wf_headerb (h : header) : bool := canonicalb (fst h) && tokenb (hname_str (fst h)) && wf_valueb (snd h).
+Definition wf_responseb (r : response) : bool :=
+  (beq (s_version r) Txt.s_http10 || beq (s_version r) Txt.s_http11) && (s_status r <? status_count) &&
+  forallb wf_headerb (s_headers r) && (N.of_nat (length (s_body r)) <=? usize_max).
+Definition line_okb (l : srv_line) : bool := tokenb (sl_name l) && owsb (sl_ows l) && rt_valueb (sl_value l).
+Definition head_okb (h : srv_head) : bool :=
+  negb (memN SP (sh_version h)) && noLFb (sh_version h) && utf8_valid (sh_version h) &&
+  (sh_status h <? status_count) && noLFb (sh_phrase h) && utf8_valid (sh_phrase h) && forallb line_okb (sh_lines h).
+
+Lemma tcharb_sound (b : N) : tcharb b = true -> tchar b.
+Proof.
+  unfold tcharb, tchar. rewrite !orb_true_iff, !andb_true_iff, !N.leb_le, is_digit_iff, memN_In. tauto.
+Qed.
+
+Lemma tokenb_sound (s : bytes) : tokenb s = true -> token s.
+Proof.
+  unfold tokenb, token. destruct s as [|b s]; [discriminate|]. intros H. split; [discriminate|].
+  rewrite forallb_forall in H. apply Forall_forall. intros x Hx. apply tcharb_sound, H, Hx.
+Qed.
+
+Lemma field_textb_sound (v : bytes) : forallb field_byteb v = true -> field_text v.
+Proof.
+  intros H. rewrite forallb_forall in H. apply Forall_forall. intros b Hb. specialize (H b Hb).
+  unfold field_byteb in H. unfold field_byte.
+  rewrite !orb_true_iff, !andb_true_iff, !N.leb_le, N.eqb_eq in H. tauto.
+Qed.
+
+Lemma owsb_sound (o : bytes) : owsb o = true -> ows o.
+Proof.
+  intros H. unfold owsb in H. rewrite forallb_forall in H. apply Forall_forall. intros b Hb. specialize (H b Hb).
+  rewrite orb_true_iff, !N.eqb_eq in H. exact H.
+Qed.
+
+Lemma noLFb_sound (s : bytes) : noLFb s = true -> ~ In LF s.
+Proof. unfold noLFb. intros H Hin. apply memN_In in Hin. rewrite Hin in H. discriminate. Qed.
+
+Lemma rt_valueb_sound (v : bytes) : rt_valueb v = true -> rt_value v.
+Proof.
+  unfold rt_valueb, rt_value. rewrite !andb_true_iff, Nat.eqb_eq. intros [[A B] C].
+  split; [apply noLFb_sound, A|]. split; assumption.
+Qed.
+
+Lemma wf_valueb_sound (v : bytes) : wf_valueb v = true -> wf_value v.
+Proof.
+  unfold wf_valueb, wf_value. rewrite !andb_true_iff, !Nat.eqb_eq. intros [[[A B] C] D].
+  split; [apply field_textb_sound, A|]. repeat split; assumption.
+Qed.
+
+Lemma wf_headerb_sound (h : header) : wf_headerb h = true -> wf_header h.
+Proof.
+  unfold wf_headerb, wf_header, canonicalb. rewrite !andb_true_iff. intros [[A B] C].
+  split; [apply hname_eqb_eq, A|]. split; [apply tokenb_sound, B|apply wf_valueb_sound, C].
+Qed.
+
+Lemma wf_responseb_sound (r : response) : wf_responseb r = true -> wf_response r.
+Proof.
+  unfold wf_responseb, wf_response. rewrite !andb_true_iff, orb_true_iff, N.ltb_lt, N.leb_le.
+  intros [[[A B] C] D]. split; [destruct A as [A|A]; apply beq_eq in A; tauto|]. split; [exact B|]. split; [|exact D].
+  rewrite forallb_forall in C. apply Forall_forall. intros h Hh. apply wf_headerb_sound, C, Hh.
+Qed.
+
+Lemma line_okb_sound (l : srv_line) : line_okb l = true -> line_ok l.
+Proof.
+  unfold line_okb, line_ok. rewrite !andb_true_iff. intros [[A B] C].
+  split; [apply tokenb_sound, A|]. split; [apply owsb_sound, B|apply rt_valueb_sound, C].
+Qed.
+
+Lemma head_okb_sound (h : srv_head) : head_okb h = true -> head_ok h.
+Proof.
+  unfold head_okb, head_ok. rewrite !andb_true_iff, N.ltb_lt. intros [[[[[[A B] C] D] E] F] G].
+  split; [intros Hin; apply memN_In in Hin; rewrite Hin in A; discriminate|].
+  split; [apply noLFb_sound, B|]. split; [exact C|]. split; [exact D|]. split; [apply noLFb_sound, E|]. split; [exact F|].
+  rewrite forallb_forall in G. apply Forall_forall. intros l Hl. apply line_okb_sound, G, Hl.
+Qed.
